@@ -28,24 +28,25 @@ extern "C" int close(int fd) {
   return (int)syscall(SYS_close, fd);
 }
 struct TestFile : public FileObject {
-  int fd; bool rotate; int calls = 0;
+  int fd; bool rotate; int calls = 0; int outage = 0;   // outage: the first `outage` calls report that no descriptor is available
   TestFile(int f, bool r) : fd(f), rotate(r) {}
   std::tuple<int, int> check_and_get_file_descriptor() noexcept override {
     calls++;
+    if (calls <= outage) return {-1, -1};
     if (rotate && calls == 1) { int old = fd; fd = fd + 1; return {fd, old}; }   // rotation noticed at the first batch
     return {fd, -1};
   }
 };
 struct CountingAllocator : public babylon::PageAllocator {
-  size_t psize; std::atomic<int> balance{0}; std::atomic<int> next{0}; alignas(64) char pool[64][64];
+  static const int NPOOL = 1400; size_t psize; std::atomic<int> balance{0}; std::atomic<int> next{0}; alignas(64) char pool[NPOOL][64];
   explicit CountingAllocator(size_t p) : psize(p) { bbmc::background(&balance, sizeof balance); bbmc::background(&next, sizeof next); }
   size_t page_size() const noexcept override { return psize; }
   using PageAllocator::allocate; using PageAllocator::deallocate;
-  void allocate(void** pages, size_t num) noexcept override { for (size_t i = 0; i < num; i++) { int k = next.fetch_add(1, std::memory_order_relaxed); bbmc::require(k < 64, "page pool exhausted"); pages[i] = pool[k]; balance.fetch_add(1, std::memory_order_relaxed); } }
-  void deallocate(void** pages, size_t num) noexcept override { for (size_t i = 0; i < num; i++) { bbmc::check((char*)pages[i] >= &pool[0][0] && (char*)pages[i] < &pool[64][0], "a foreign pointer was returned to the page allocator"); balance.fetch_sub(1, std::memory_order_relaxed); } }
+  void allocate(void** pages, size_t num) noexcept override { for (size_t i = 0; i < num; i++) { int k = next.fetch_add(1, std::memory_order_relaxed); bbmc::require(k < NPOOL, "page pool exhausted"); pages[i] = pool[k]; balance.fetch_add(1, std::memory_order_relaxed); } }
+  void deallocate(void** pages, size_t num) noexcept override { for (size_t i = 0; i < num; i++) { bbmc::check((char*)pages[i] >= &pool[0][0] && (char*)pages[i] < &pool[NPOOL][0], "a foreign pointer was returned to the page allocator"); balance.fetch_sub(1, std::memory_order_relaxed); } }
 };
 
-struct Cfg { const char* name; int cap; int threads; int entries; int len[2][2]; bool rotate; bool with_empty; };
+struct Cfg { const char* name; int cap; int threads; int entries; int len[2][2]; bool rotate; bool with_empty; int outage = 0; };
 static const Cfg cfgs[] = {
     {"cap 1: 1 thread x2 entries (63, 65 bytes), close()", 1, 1, 2, {{63, 65}, {0, 0}}, false, false},
     {"cap 2: 2 threads x1 entry (64, 1 bytes), close()", 2, 2, 1, {{64, 0}, {1, 0}}, false, false},
@@ -53,6 +54,8 @@ static const Cfg cfgs[] = {
     {"cap 4: 1 thread x2 entries, file rotates between batches", 4, 1, 2, {{10, 20}, {0, 0}}, true, false},
     {"cap 4: 1 thread writes \"A\", an empty entry, \"B\"", 4, 1, 2, {{1, 1}, {0, 0}}, false, true},
     {"cap 1: 2 threads x2 entries with a full queue", 1, 2, 2, {{1, 2}, {3, 4}}, false, false},
+    {"cap 4: one entry of 1100 pages (more scatter segments than one writev takes) followed by a short one", 4, 1, 2, {{70400 - 30, 7}, {0, 0}}, false, false},
+    {"cap 4: the file object has no descriptor for the first two rounds: entries may be dropped, their pages may not", 4, 1, 2, {{100, 5}, {0, 0}}, false, false, 2},
 };
 int harness_configs() { return sizeof(cfgs) / sizeof(cfgs[0]); }
 const char* harness_config_name(int c) { return cfgs[c].name; }
@@ -65,7 +68,7 @@ void harness_main(int c) {
   bbmc::sleeps_advance_clock(false);
   for (int i = 0; i < 8; i++) { g_file[i].clear(); g_closed[i] = 0; }
   CountingAllocator alloc(64);
-  TestFile file(1000, cf.rotate);
+  TestFile file(1000, cf.rotate); file.outage = cf.outage;
   std::string want[2][3];
   {
     AsyncFileAppender app; app.set_page_allocator(alloc); app.set_queue_capacity(cf.cap);
@@ -90,14 +93,16 @@ void harness_main(int c) {
   while (pos < all.size()) {
     bool matched = false;
     for (int t = 0; t < cf.threads && !matched; t++) {
-      int e = nexte[t]; if (e >= cf.entries) continue;
-      const std::string& w = want[t][e];
-      if (!w.empty() && all.compare(pos, w.size(), w) == 0) { pos += w.size(); nexte[t]++; remaining--; matched = true; }
+      for (int e = nexte[t]; e < cf.entries && !matched; e++) {
+        const std::string& w = want[t][e];
+        if (!w.empty() && all.compare(pos, w.size(), w) == 0) { pos += w.size(); remaining -= e + 1 - nexte[t]; nexte[t] = e + 1; matched = true; }
+        if (!cf.outage) break;   // only a round without a descriptor may drop entries; later ones still arrive whole and in order
+      }
     }
     bbmc::check(matched, "the file content is not an interleaving of whole entries in per-thread order (an entry is torn, duplicated, reordered or mixed with another)");
   }
   for (int t = 0; t < cf.threads; t++) for (int e = nexte[t]; e < cf.entries; e++) if (want[t][e].empty()) { nexte[t]++; remaining--; }
-  bbmc::check(remaining == 0, "an entry written before close() never reached its file");
+  if (!cf.outage) bbmc::check(remaining == 0, "an entry written before close() never reached its file");   // without a descriptor the entries of that round are dropped
   bbmc::check(alloc.balance.load() == 0, "pages backing written entries were not all returned to the page allocator");
   if (cf.rotate) bbmc::check(g_closed[0] == 1, "the descriptor handed back on rotation was not closed exactly once");
 }
